@@ -28,7 +28,7 @@ def _child_setup(cwd, out_path, err_path, env):
     os.environ.pop("TALLY_CONFIG", None) if "TALLY_CONFIG" not in (env or {}) else None
 
 
-def run_cli(argv, cwd, env=None, pre=None):
+def run_cli(argv, cwd, env=None, pre=None, post=None, call=None):
     """Fork; in the child run tally.cli.main() with sys.argv = ['tally'] + argv. Returns exit/stdout/stderr.
     `pre` is an optional callable run in the child before main (used to install fault injectors)."""
     H.import_tally()
@@ -51,7 +51,10 @@ def run_cli(argv, cwd, env=None, pre=None):
             if pre:
                 pre()
             try:
-                cli.main()
+                if call is not None:
+                    call()
+                else:
+                    cli.main()
             except SystemExit as e:
                 c = e.code
                 if c is None:
@@ -69,6 +72,11 @@ def run_cli(argv, cwd, env=None, pre=None):
                 pass
             code = 70 if not getattr(e, "verif_crash", False) else 99
         finally:
+            try:
+                if post:
+                    post()
+            except BaseException:  # noqa
+                pass
             try:
                 sys.stdout.flush()
                 sys.stderr.flush()
